@@ -1071,11 +1071,13 @@ class ParserField:
                         context=context,
                     )
 
-            discriminator = value.get(self.discriminator)
+            discriminator = None
             try:
+                discriminator = value.get(self.discriminator)
                 matched = discriminator in self.discriminator_map
             except Exception:  # noqa
-                # an unhashable value (or one that fails to hash) cannot be one of the declared constants
+                # a mapping that cannot be read, an unhashable value (or one that fails to hash):
+                # not one of the declared constants
                 matched = False
             if matched:
                 type = self.discriminator_map[discriminator]
